@@ -14,6 +14,9 @@ ASSUME = [
     "the target is the Lifecycle/Mailbox abstraction of an actor: send_message is accepted iff the status is below Draining; "
     "status check and enqueue are one step at poll granularity",
     "send_interval with a zero period panics inside tokio::time::interval and is outside the property's quantifier",
+    "a target obtained from spawn_instant may still be Unstarted: send_message accepts (status < Draining) but ACTIVE_STATES does "
+    "not contain Unstarted, so send_interval's loop ends at once; modelled as the named deviation IntervalDiesOnUnstarted "
+    "(UnstartedKillsInterval = TRUE is the code as it is, FALSE the property-level reading, both model-checked)",
 ]
 
 PKG = {
@@ -25,10 +28,15 @@ PKG = {
         ("MC_Timer_exit.cfg", ("quick", "thorough"), {}),
         ("MC_Timer_kill.cfg", ("quick", "thorough"), {}),
         ("MC_Timer_free.cfg", ("quick", "thorough"), {}),
+        ("MC_Timer_instant.cfg", ("quick", "thorough"), {}),
+        ("MC_Timer_instantfix.cfg", ("quick", "thorough"), {}),
         ("MC_Timer_big.cfg", ("thorough",), {"workers": 8, "timeout": 1800}),
         ("MC_Timer_big2.cfg", ("thorough",), {"workers": 8, "timeout": 1800}),
     ],
-    "builds": [("", ("quick", "thorough"))],
+    # timer-instant: timers armed on an instant-spawned, still Unstarted target; needs the named deviation
+    # IntervalDiesOnUnstarted and therefore runs only when that finding is listed (manifest/_proposed_findings.json)
+    "builds": [("", ("quick", "thorough")), ("", ("quick", "thorough"), "timer-instant", "IntervalDiesOnUnstarted")],
+    "dev_owner": {"IntervalDiesOnUnstarted": "C12"},
     "trace_module": "Trace_Timer",
     "trace_cfg": "Trace_Timer.cfg",
     "assume": ASSUME,
